@@ -69,7 +69,7 @@ Lemma route_keeps e r k v : safe_key k = true -> fget k (m_data e) = Some v -> f
 Proof.
   intros Hs H. unfold safe_key in Hs. apply andb_prop in Hs. destruct Hs as [Hs Hsock]. apply andb_prop in Hs. destruct Hs as [Hit Harg].
   apply negb_true_iff in Hit, Harg, Hsock. unfold route. destruct (is_syscall r).
-  - cbn [with_data m_data]. rewrite fget_del_other; auto. unfold isS in Hit. apply beq_sym_false. exact Hit.
+  - exact H.
   - destruct (r_data r) as [d|]; [|exact H].
     destruct (N.eqb (r_type r) MsgTypes.AUDIT_PATH); [exact H|].
     destruct (N.eqb (r_type r) MsgTypes.AUDIT_SOCKADDR).
